@@ -266,6 +266,63 @@ class ProcessOutput(InferBase):
                                   z3.And(row.contains(cid), row.get(cid) == arg.get(cid))))
 
 
+class ProcessOutputPredicate(ProcessOutput):
+    """the same function for a predicate (decorated function or Predicate subclass), possibly negated (C03): the label is
+    the truth of the predicate's result, inverted exactly when the node is inverted; a row is emitted exactly when the label
+    is true or false rows were asked for; it binds the node to the result"""
+    props = ('C03', 'C09')
+    nfields = (0, 1)
+    ptypes = ('DecoratedMethod', 'SubClassOfPredicate')
+
+    def setup(self, eng):
+        sts = []
+        for st in super().setup(eng):
+            for pt in self.ptypes:
+                s2 = st.clone()
+                s2.ghost['ptype'] = pt
+                s2.ghost['invert'] = z3.Const('inverted', Z.B)
+                s2.path.append('predicate=' + pt)
+                sts.append(s2)
+        return sts
+
+    def getattr(self, eng, st, recv, name):
+        if isinstance(recv, ZV) and recv.ty == 'node' and recv.t.eq(st.ghost['self']):
+            if name == '_predicate_type_':
+                return [(st, C(Ref('enum', 'PredicateType.' + st.ghost['ptype'])))]
+            if name == '_invert_':
+                return [(st, ZV(st.ghost['invert'], 'bool'))]
+        return super().getattr(eng, st, recv, name)
+
+    def call(self, eng, st, f, args, kwargs, node):
+        if isinstance(f, ZV) and f.ty == 'val' and not args and not kwargs:
+            # a Predicate instance is called to obtain its result
+            st = st.clone()
+            st.ghost['called'] = st.ghost.get('called', 0) + 1
+            return [(st, ZV(z3.Const('predicate_result', Z.Val), 'val'))]
+        return super().call(eng, st, f, args, kwargs, node)
+
+    def on_exit(self, eng, o):
+        st = o.st
+        if o.sig not in (NEXT, RETURN):
+            eng.oblige(st, "C03/predicate/finishes-normally", z3.BoolVal(False))
+            return
+        n = st.ghost['self']
+        cls_form = st.ghost['ptype'] == 'SubClassOfPredicate'
+        res = z3.Const('predicate_result', Z.Val) if cls_form else z3.Const('instance', Z.Val)
+        if cls_form:
+            eng.oblige(st, "C03/predicate/a-predicate-instance-is-called-exactly-once", z3.BoolVal(st.ghost.get('called', 0) == 1))
+        lbl = z3.Select(st.fields['is_false'], n)
+        truth = z3.Xor(Z.truthy(res), st.ghost['invert'])
+        eng.oblige(st, "C03/predicate/label-is-the-result-inverted-exactly-when-the-node-is", lbl == z3.Not(truth))
+        ywf = z3.Select(st.fields['ywf'], n)
+        rows = st.ghost['rows_out']
+        eng.oblige(st, "C03/predicate/row-exactly-when-true-or-false-rows-were-asked-for",
+                   z3.And(z3.BoolVal(len(rows) <= 1), z3.BoolVal(len(rows) == 1) == z3.Or(ywf, truth)))
+        if len(rows) == 1:
+            eng.oblige(st, "C03/predicate/row-binds-the-node-to-the-result",
+                       z3.And(rows[0].contains(Z.nid(n)), Z.hv_value(rows[0].get(Z.nid(n))) == res))
+
+
 class InferPostInit(LibModel):
     """Infer.__post_init__: every selected variable of the descriptor under an Infer quantifier is marked as to-be-inferred
     (so Variable._evaluate__ takes the constructing branch for it)"""
@@ -436,4 +493,4 @@ class ChildVarsFromKwargs(LibModel):
         return {}
 
 
-CONTRACTS = [InstantiateNew, ProcessOutput, InferPostInit, ChildVarsFromKwargs]
+CONTRACTS = [InstantiateNew, ProcessOutput, ProcessOutputPredicate, InferPostInit, ChildVarsFromKwargs]
